@@ -21,6 +21,7 @@ type c14Case struct {
 	T    uint8    `json:"attr,omitempty"`
 	N    int      `json:"size,omitempty"`
 	Seq  []ref.AKAAttr `json:"seq,omitempty"`
+	Then *ref.EAP      `json:"then,omitempty"`
 }
 
 func init() {
@@ -35,7 +36,11 @@ func init() {
 		Replay: func(c *engine.Ctx, raw json.RawMessage) {
 			var cs c14Case
 			unmarshalCase(raw, &cs)
+			c14Prev = nil
 			switch cs.K {
+			case "packet2":
+				c14Packet(c, c14Case{K: "packet", Name: cs.Name, E: cs.E})
+				c14Packet(c, c14Case{K: "packet", Name: "(then)", E: cs.Then})
 			case "packet":
 				c14Packet(c, cs)
 			case "setter":
@@ -171,7 +176,9 @@ func runC14(c *engine.Ctx) {
 	}
 	// overwrite sequences, depth <= 3 over an alphabet of (type, value) settings
 	alpha := []ref.AKAAttr{{T: ref.AtRES, V: univ.Pat(5, 1)}, {T: ref.AtRES, V: univ.Pat(16, 2)}, {T: ref.AtRES, V: univ.Pat(8, 3)}, {T: ref.AtKDFInput, V: univ.Pat(3, 4)}, {T: ref.AtKDFInput, V: nil},
-		{T: ref.AtKDFInput, V: univ.Pat(260, 5)}, {T: ref.AtMAC, V: univ.Pat(16, 6)}, {T: ref.AtMAC, V: univ.Fill(16, 0)}, {T: ref.AtCheckcode, V: univ.Pat(20, 7)}, {T: ref.AtCheckcode, V: nil}, {T: ref.AtKDF, V: []byte{0, 2}}}
+		{T: ref.AtKDFInput, V: univ.Pat(260, 5)}, {T: ref.AtMAC, V: univ.Pat(16, 6)}, {T: ref.AtMAC, V: univ.Fill(16, 0)}, {T: ref.AtCheckcode, V: univ.Pat(20, 7)}, {T: ref.AtCheckcode, V: nil}, {T: ref.AtKDF, V: []byte{0, 2}},
+		// settings the setter must refuse; they must leave the message untouched
+		{T: ref.AtRES, V: univ.Pat(3, 8)}, {T: ref.AtRES, V: univ.Pat(17, 9)}, {T: ref.AtMAC, V: univ.Pat(15, 10)}, {T: ref.AtKDF, V: []byte{1, 2, 3}}, {T: ref.AtRAND, V: nil}}
 	var rec func(seq []ref.AKAAttr)
 	rec = func(seq []ref.AKAAttr) {
 		if len(seq) > 0 {
@@ -283,7 +290,23 @@ func c14Packet(c *engine.Ctx, cs c14Case) {
 	}
 	c.Distinct(engine.Hash64(b1))
 	c.Sample(dim(cs.Name), map[string]string{"packet": engine.Hex(trunc(b1, 64)), "descriptor": trs(want.Canon())})
+	// the bytes returned for the previous packet must still be that packet after this Marshal
+	if pv := c14Prev; pv != nil && !bytes.Equal(pv.wire, pv.want) {
+		c.Violate("returned-buffer-changed-by-later-marshal", fmt.Sprintf("the bytes returned by Marshal for %q changed when %q was marshalled", pv.name, cs.Name), c14Case{K: "packet2", Name: pv.name, E: pv.e, Then: cs.E})
+		c14Prev = nil
+		return
+	}
+	c14Prev = &c14Held{name: cs.Name, e: cs.E, wire: b2, want: append([]byte(nil), b2...)}
 }
+
+type c14Held struct {
+	name string
+	e    *ref.EAP
+	wire []byte
+	want []byte
+}
+
+var c14Prev *c14Held
 
 // c14Setter: the setter refuses wrong sizes for the fixed-size attributes and unknown types.
 func c14Setter(c *engine.Ctx, t uint8, n int) {
@@ -356,12 +379,24 @@ func c14Overwrite(c *engine.Ctx, seq []ref.AKAAttr) {
 	c.Evals++
 	cs := c14Case{K: "overwrite", Seq: seq}
 	a := eap.NewEapAkaPrime(eap.SubtypeAkaChallenge)
+	var valid []ref.AKAAttr
 	for _, s := range seq {
-		if err := a.SetAttr(eap.EapAkaPrimeAttrType(s.T), s.V); err != nil {
+		wrong := (s.T == ref.AtRES && (len(s.V) < 4 || len(s.V) > 16)) || ((s.T == ref.AtRAND || s.T == ref.AtAUTN || s.T == ref.AtMAC) && len(s.V) != 16) || (s.T == ref.AtKDF && len(s.V) != 2)
+		err := a.SetAttr(eap.EapAkaPrimeAttrType(s.T), s.V)
+		if wrong {
+			if err == nil {
+				c.Violate(fmt.Sprintf("wrong-size-accepted/at%d", s.T), fmt.Sprintf("SetAttr(%d, %d octets) accepted on a used message", s.T, len(s.V)), cs)
+				return
+			}
+			continue // a refused setting must leave the message as it was
+		}
+		if err != nil {
 			c.Violate("overwrite/set-error", errStr(err), cs)
 			return
 		}
+		valid = append(valid, s)
 	}
+	seq = valid
 	e := &eap.EAP{Code: eap.EapCodeRequest, Identifier: 9, EapTypeData: a}
 	b, err := e.Marshal()
 	if err != nil {
@@ -381,7 +416,12 @@ func c14Overwrite(c *engine.Ctx, seq []ref.AKAAttr) {
 		return
 	}
 	if pe.Canon() != want.Canon() {
-		c.Violate("overwrite/stale-value", fmt.Sprintf("wire says %s, last settings are %s", trs(pe.Canon()), trs(want.Canon())), cs)
+		c.Violate("overwrite/stale-value", fmt.Sprintf("wire says %s, last accepted settings are %s", trs(pe.Canon()), trs(want.Canon())), cs)
+		return
+	}
+	d := new(eap.EAP)
+	if derr := d.Unmarshal(b); derr != nil || univ.ProjectEAP(d).Canon() != want.Canon() {
+		c.Violate("overwrite/roundtrip", fmt.Sprintf("after the settings %v the packet does not decode back: %v", seq, derr), cs)
 		return
 	}
 	c.Distinct(engine.Hash64(b, []byte("ow")))
